@@ -69,3 +69,21 @@ Definition ctx_step_shared (l : cthread) (s : cshared) : cthread * cshared :=
   end.
 Definition ctx_run_shared (ths : list (ctxval * list action)) (sched : list nat) : st cshared cthread :=
   run cshared cthread ctx_step_shared (ctx_init ths) sched.
+
+(* an answer assembled in a buffer SHARED by all connections (a seeded breaking change in the auth handler's GetClientConfig):
+   each command resets the buffer, appends its own items one by one, then reads the buffer as its answer.
+   Local state: (own item, items still to append, answer read so far). *)
+Record bthread := { b_own : N; b_todo : nat; b_started : bool; b_answer : option (list N) }.
+Definition buf_step (shared : bool) (l : bthread) (buf : list N) : bthread * list N :=
+  if negb (b_started l) then ({| b_own := b_own l; b_todo := b_todo l; b_started := true; b_answer := None |}, if shared then [] else buf)
+  else match b_todo l with
+       | S k => ({| b_own := b_own l; b_todo := k; b_started := true; b_answer := None |}, if shared then buf ++ [b_own l] else buf)
+       | O => match b_answer l with
+              | None => ({| b_own := b_own l; b_todo := 0; b_started := true;
+                            b_answer := Some (if shared then buf else []) |}, buf)   (* private buffer: modelled by the count below *)
+              | Some _ => (l, buf)
+              end
+       end.
+Definition buf_run (shared : bool) (ths : list (N * nat)) (sched : list nat) : st (list N) bthread :=
+  run (list N) bthread (buf_step shared)
+      ([], map (fun p => {| b_own := fst p; b_todo := snd p; b_started := false; b_answer := None |}) ths) sched.
